@@ -284,7 +284,7 @@ func ruleKeys(c *lib.Ctx, i int, h []e2e.EngStep) {
 		return
 	}
 	js := map[string]any{"history": i, "rule_keys": pairs}
-	c.Case(term, js, fmt.Sprint("keys", pairs), len(pairs) >= 2)
+	c.Case(lib.App("C01Ext.Eng", term), js, fmt.Sprint("keys", pairs), len(pairs) >= 2)
 	c.HistN("rule-key-pairs", len(pairs))
 	c.Oracle()
 	for a := range pairs {
@@ -376,7 +376,7 @@ func replayHistory(c *lib.Ctx, base string, specs []*e2e.Spec) {
 		order := s.Labels()
 		sort.SliceStable(order, func(a, b int) bool { return depth(s, order[a]) < depth(s, order[b]) })
 		h = append(h, e2e.EngBuild(repo, base, s, order, s.Labels(), i, e2e.Edit{Kind: "replay"}, false, e2e.EngOpts{CleanRef: true, RuleHashes: true}))
-		oracle(c, 0, h, i)
+		oracleCls(c, 0, h, i, takeoverClass)
 	}
 	modelled := true
 	for _, s := range specs {
